@@ -129,6 +129,7 @@ type Session struct {
 
 	nextSend               atomic.Uint32 // next sequence number to send a segment
 	nextRecv               atomic.Uint32 // next sequence number to receive
+	recvIncomplete         atomic.Bool   // remote closed the session before all the previous segments were received
 	lastSend               atomic.Uint32 // last segment sequence number sent
 	lastRXTime             atomic.Int64  // last timestamp when a segment is received, in microseconds since Unix epoch
 	lastTXTime             atomic.Int64  // last timestamp when a segment is sent, in microseconds since Unix epoch
@@ -288,6 +289,11 @@ func (s *Session) Read(b []byte) (n int, err error) {
 			// Wait for incoming segments to fill the recvQueue.
 			select {
 			case <-s.closedChan:
+				if s.recvIncomplete.Load() {
+					// Some segments sent before the close request
+					// never arrived. This is not a clean end of stream.
+					return 0, io.ErrUnexpectedEOF
+				}
 				return 0, io.EOF
 			case <-s.inputErr:
 				return 0, io.ErrUnexpectedEOF
@@ -1190,6 +1196,13 @@ func (s *Session) inputAck(seg *segment) error {
 }
 
 func (s *Session) inputClose(seg *segment) error {
+	if s.transportProtocol == common.PacketTransport && seg.metadata.Protocol() == closeSessionRequest {
+		// The close request is processed as soon as it arrives.
+		// It may overtake segments that are lost or still in flight.
+		if seq, err := seg.Seq(); err == nil && seq > s.nextRecv.Load() {
+			s.recvIncomplete.Store(true)
+		}
+	}
 	s.oLock.Lock()
 	if seg.metadata.Protocol() == closeSessionRequest {
 		// Send close session response.
